@@ -239,7 +239,7 @@ func runScript(sh *c09shared, sc *c09script, g int) (transcript []string, stamps
 	resumeIdx := 0
 	emit := func(tag string, v any) {
 		b, _ := json.Marshal(v)
-		transcript = append(transcript, tag+":"+string(b))
+		transcript = append(transcript, tag+":"+normKnownNondet(string(b)))
 	}
 	for _, op := range sc.ops {
 		st := opStamp{at: time.Now().UnixNano(), g: g, op: op, flow: sc.flowIdx}
